@@ -41,17 +41,27 @@ def isCheckedShape (s : Shape) : Bool :=
 
 def shapeAt (tbl : List Op) (j : Nat) : Option Shape := (tbl[j]?).map (·.shape)
 
+/-- Shapes that issue no request at message level. -/
+def isQuietShape (s : Shape) : Bool :=
+  match s with
+  | .nosend => true
+  | .transport => true
+  | _ => false
+
 /-- Entry `i`: calls point backwards; sends are registered request classes with a
 completion-code-first response; a checked / nosend operation only calls checked / nosend
-operations; nosend issues nothing; kinds are known; `loop` iff it uses a handler kind. -/
+operations; nosend and transport issue nothing; kinds are known, the own ones are among
+them; `loop` iff it uses a handler kind. -/
 def opOk (reg : List MsgSpec) (tbl : List Op) (i : Nat) (op : Op) : Bool :=
   op.sk.calls.all (fun j => decide (j < i)) &&
   op.sk.sends.all (reqOk reg) &&
   (!isCheckedShape op.shape ||
     op.sk.calls.all (fun j => match shapeAt tbl j with | some s => isCheckedShape s | none => false)) &&
-  (!decide (op.shape = .nosend) ||
-    (op.sk.sends.isEmpty && op.sk.calls.all (fun j => decide (shapeAt tbl j = some .nosend)))) &&
+  (!isQuietShape op.shape ||
+    (op.sk.sends.isEmpty &&
+      op.sk.calls.all (fun j => match shapeAt tbl j with | some s => isQuietShape s | none => false))) &&
   op.kinds.all (fun k => decide (k < handlerKinds)) &&
+  op.own.all (fun k => op.kinds.contains k) &&
   (decide (op.shape = .loop) == !op.kinds.isEmpty)
 
 def tableOkAux (reg : List MsgSpec) (tbl : List Op) : Nat → List Op → Bool
@@ -67,5 +77,53 @@ def residueClosed (tbl : List Op) (allowed : List Nat) : Bool :=
 /-- Every listed key is a public operation of the table with one of the given shapes. -/
 def keysHaveShape (tbl : List Op) (keys : List Nat) (ok : Shape → Bool) : Bool :=
   keys.all fun k => tbl.any fun op => op.pub && decide (op.key = k) && ok op.shape
+
+/-! ### which theorem covers which entry -/
+
+/-- How an entry of the table is covered (the theorems are named in Props/C08.lean). -/
+inductive Cover where
+  | skeleton            -- checked / nosend: every resolution of its skeleton
+  | primitive           -- hands the response, code included, to the caller / is `sendChecked`
+  | transport           -- no request at message level: nothing to inject into
+  | leaf (model : Nat)  -- has handlers of its own: the model with that number
+  | composite           -- no handler of its own: a skeleton over covered entries
+  | asShipped           -- outside the grammar, with a counter-example theorem
+  deriving DecidableEq, Repr
+
+/-- The cover of `op`, given the covers of the entries before it.  A leaf must be listed in
+`leafs` (key, own handler kinds, model) with exactly its own handler kinds; leaves and
+composites may only call covered entries. -/
+def coverOf (leafs : List (Nat × List Nat × Nat)) (shipped : List Nat) (prev : List (Option Cover))
+    (op : Op) : Option Cover :=
+  match op.shape with
+  | .checked => some .skeleton
+  | .nosend => some .skeleton
+  | .primitive => some .primitive
+  | .transport => some .transport
+  | .other => if shipped.contains op.key then some .asShipped else none
+  | .loop =>
+    if op.sk.calls.all (fun j => match prev[j]? with | some (some _) => true | _ => false) then
+      if op.own.isEmpty then some .composite
+      else
+        match leafs.find? (fun l => l.1 == op.key) with
+        | some l => if l.2.1 == op.own then some (.leaf l.2.2) else none
+        | none => none
+    else none
+
+def covers (leafs : List (Nat × List Nat × Nat)) (shipped : List Nat) (tbl : List Op) : List (Option Cover) :=
+  tbl.foldl (fun acc op => acc ++ [coverOf leafs shipped acc op]) []
+
+def allCovered (leafs : List (Nat × List Nat × Nat)) (shipped : List Nat) (tbl : List Op) : Bool :=
+  (covers leafs shipped tbl).all Option.isSome
+
+/-- Number of public entries covered in the way `p` selects. -/
+def coverCount (leafs : List (Nat × List Nat × Nat)) (shipped : List Nat) (tbl : List Op)
+    (p : Cover → Bool) : Nat :=
+  ((tbl.zip (covers leafs shipped tbl)).filter fun x =>
+    x.1.pub && (match x.2 with | some c => p c | none => false)).length
+
+def Cover.isLeaf : Cover → Bool
+  | .leaf _ => true
+  | _ => false
 
 end PyIpmi.Prog
